@@ -388,6 +388,7 @@ func c01Run(c *core.Ctx) {
 		}
 	}
 	c01Boundary(c, draw)
+	c01SweepSites(c)
 	// "whenever a generator picks one of n alternatives (a position, a coin
 	// flip)": every alternative must be selectable. The single-deviation
 	// coverage exploration of C04 for the capitalisation choices of long
@@ -628,6 +629,7 @@ func c01Finish(m *core.Merged) {
 		swept = append(swept, fmt.Sprintf("%d(c=%d,rej=%d)", n, c0, rejected))
 		m.Outcomes[fmt.Sprintf("n=%d c=%d rej=%d", n, c0, rejected)] = true
 	}
+	c01FinishSites(m)
 	sort.Strings(swept)
 	m.Notes = append(m.Notes, "fully swept bounds n(count per outcome, rejected words): "+strings.Join(swept, " "))
 }
@@ -659,6 +661,7 @@ func init() {
 		var rp struct {
 			Case  *WLCase  `json:"case"`
 			N     uint32   `json:"n"`
+			Site  *int     `json:"site"`
 			Words []uint32 `json:"words"`
 			Chunk int      `json:"chunk"`
 		}
@@ -694,6 +697,9 @@ func init() {
 		exe, _ := os.Executable()
 		cmd := exec.Command(exe, "C01", "--tier", "quick")
 		cmd.Env = append(os.Environ(), "VERIF_ROOT="+tmp, "VERIF_C01_BOUNDS="+strconv.FormatUint(uint64(rp.N), 10), "VERIF_IN_REPLAY=1")
+		if rp.Site != nil {
+			cmd.Env = append(cmd.Env, "VERIF_C01_SWEEP_SITE="+strconv.Itoa(*rp.Site))
+		}
 		out, _ := cmd.CombinedOutput()
 		nv := strings.Count(string(out), "VIOLATION property=C01")
 		first := ""
